@@ -10,8 +10,8 @@
    repaired form of the call - the invariants judge the result either way.                                  *)
 EXTENDS LlcpAddr, Json, IOUtils, TLCExt
 
-VARIABLES tid, l
-tvars == <<w, last, tid, l>>
+VARIABLES tid, l, fails
+tvars == <<w, last, tid, l, fails>>
 
 Traces == ndJsonDeserialize(IOEnv.TRACE_FILE)
 T == Traces[tid].ev
@@ -29,6 +29,7 @@ TInit ==
     /\ tid \in 1..Len(Traces)
     /\ l = 1
     /\ w = World0 /\ last = L0
+    /\ fails = <<>>
 
 Ev == T[l]
 IsEv(op) == l <= Len(T) /\ Ev.op = op /\ l' = l + 1 /\ UNCHANGED tid
@@ -73,8 +74,7 @@ PostOk == Proj(w') = Ev.post
 InvNames == <<"OneAddrPerSocket", "NoDoubleAlloc", "RangesRespected", "FreedOnLastClose", "Datagram",
               "ResolveRight", "InUseRight", "ConnectByName", "DatagramStep">>
 \* state invariants are judged at the step that breaks them (P(w) => P(w')): a defect is reported where it
-\* happens and the rest of the history is still validated; Ev.waive names what the binding has already reported
-\* for this very step (second pass over a history with a known finding)
+\* happens (recorded in `fails`) and the rest of the history is still validated
 InvP(n) == CASE n = "OneAddrPerSocket" -> OneAddrPerSocketP(w) => OneAddrPerSocketP(w')
              [] n = "NoDoubleAlloc"    -> NoDoubleAllocP(w) => NoDoubleAllocP(w')
              [] n = "RangesRespected"  -> RangesRespectedP(w) => RangesRespectedP(w')
@@ -84,13 +84,14 @@ InvP(n) == CASE n = "OneAddrPerSocket" -> OneAddrPerSocketP(w) => OneAddrPerSock
              [] n = "InUseRight"       -> InUseRightP(w, last')
              [] n = "ConnectByName"    -> ConnectByNameP(w, last')
              [] n = "DatagramStep"     -> DatagramStepP(w, w', last')
-Waived(n) == \E i \in DOMAIN Ev.waive : Ev.waive[i] = n
-AllInv == \A i \in DOMAIN InvNames : Waived(InvNames[i]) \/ InvP(InvNames[i])
+AllInv == \A i \in DOMAIN InvNames : InvP(InvNames[i])
+Broken == SelectSeq(InvNames, LAMBDA n : ~InvP(n))
 
-Real == Guarded /\ ResOk /\ PostOk /\ AllInv
+Conforms == Guarded /\ ResOk /\ PostOk
+\* the call conforms to the spec action; invariants it breaks are recorded and the history goes on
+Real == Conforms /\ fails' = IF AllInv THEN fails ELSE Append(fails, <<l, Ev.op, Broken>>)
 
 \* --- diagnosis -------------------------------------------------------------------------------
-FailedInv == SelectSeq(InvNames, LAMBDA n : ~Waived(n) /\ ~ENABLED (Guarded /\ ResOk /\ PostOk /\ InvP(n)))
 \* what the shipped code's model answers (for the message only)
 Expected ==
     CASE Ev.op \in {"BindNone", "BindAddr", "BindName"} ->
@@ -103,18 +104,19 @@ Expected ==
       [] OTHER -> "-"
 Why == IF ~ENABLED Guarded THEN <<"guard">>
        ELSE IF ~ENABLED (Guarded /\ ResOk) THEN <<"result", Expected>>
-       ELSE IF ~ENABLED (Guarded /\ ResOk /\ PostOk) THEN <<"post">>
-       ELSE <<"inv", FailedInv>>
+       ELSE <<"post">>
 
 Stuck ==
     /\ l <= Len(T)
     /\ ~ENABLED Real
-    /\ PrintT(<<"STUCK", Traces[tid].id, l, Ev.op, Why>>)
+    /\ PrintT(<<"STUCK", Traces[tid].id, l, Ev.op, Why, fails>>)
     /\ l' = Len(T) + 2
-    /\ UNCHANGED <<w, last, tid>>
+    /\ UNCHANGED <<w, last, tid, fails>>
 
 TNext == Real \/ Stuck
 TSpec == TInit /\ [][TNext]_tvars
 
-Done == (l = Len(T) + 1) => PrintT(<<"ACCEPT", Traces[tid].id>>)
+Done == (l = Len(T) + 1) =>
+            IF fails = <<>> THEN PrintT(<<"ACCEPT", Traces[tid].id>>)
+            ELSE PrintT(<<"STUCK", Traces[tid].id, fails[1][1], fails[1][2], <<"inv", fails[1][3]>>, fails>>)
 =============================================================================
